@@ -8,19 +8,31 @@ namespace Galene.Sig
 
 /-! ### the edit, on plain lists -/
 
-/-- changePermissionsAction on a plain list: `rec` says whether the group allows recording -/
-def permEditL (l : List String) (rec : Bool) (kind : String) : Option (List String) :=
+/-- webclient.go `remove` on a plain list: every occurrence (`all`, the repaired code) or the first one -/
+def removeL (all : Bool) (v : String) (l : List String) : List String :=
+  if all then l.filter (· ≠ v) else l.erase v
+
+theorem removeFix_get (fx : Fixes) (h : Heap) (s : Slice) (v : String) (hw : h.WF s) :
+    (removeFix fx h s v).1.get (removeFix fx h s v).2 = removeL fx.removeAll v (h.get s) := by
+  unfold removeFix removeL
+  split_ifs
+  · exact removeAllS_get h s v hw
+  · exact removeS_get h s v hw
+
+/-- changePermissionsAction on a plain list: `all` is the repair flag of `remove`, `rec` says whether
+the group allows recording -/
+def permEditL (all : Bool) (l : List String) (rec : Bool) (kind : String) : Option (List String) :=
   if kind = "op" then some (if rec then addnewL "record" (addnewL "op" l) else addnewL "op" l)
-  else if kind = "unop" then some ((l.erase "op").erase "record")
+  else if kind = "unop" then some (removeL all "record" (removeL all "op" l))
   else if kind = "present" then some (addnewL "present" l)
-  else if kind = "unpresent" then some (l.erase "present")
-  else if kind = "shutup" then some (l.erase "message")
+  else if kind = "unpresent" then some (removeL all "present" l)
+  else if kind = "shutup" then some (removeL all "message" l)
   else if kind = "unshutup" then some (addnewL "message" l)
   else none
 
 /-- the heap edit shows, through the slice it returns, the list edit of the old list -/
-theorem permEdit_get (h : Heap) (s : Slice) (rec : Bool) (kind : String) (r : Heap × Slice) (hw : h.WF s)
-    (he : permEdit h s rec kind = some r) : permEditL (h.get s) rec kind = some (r.1.get r.2) := by
+theorem permEdit_get (fx : Fixes) (h : Heap) (s : Slice) (rec : Bool) (kind : String) (r : Heap × Slice) (hw : h.WF s)
+    (he : permEdit fx h s rec kind = some r) : permEditL fx.removeAll (h.get s) rec kind = some (r.1.get r.2) := by
   unfold permEdit at he
   unfold permEditL
   by_cases h1 : kind = "op"
@@ -38,7 +50,7 @@ theorem permEdit_get (h : Heap) (s : Slice) (rec : Bool) (kind : String) (r : He
   by_cases h2 : kind = "unop"
   · rw [if_pos h2] at he ⊢
     simp only [Option.some.injEq] at he ⊢
-    rw [← he, removeS_get _ _ _ (removeS_ok h s "op" hw).wf, removeS_get h s "op" hw]
+    rw [← he, removeFix_get fx _ _ _ (removeFix_ok fx h s "op" hw).wf, removeFix_get fx h s "op" hw]
   rw [if_neg h2] at he ⊢
   by_cases h3 : kind = "present"
   · rw [if_pos h3] at he ⊢
@@ -48,12 +60,12 @@ theorem permEdit_get (h : Heap) (s : Slice) (rec : Bool) (kind : String) (r : He
   by_cases h4 : kind = "unpresent"
   · rw [if_pos h4] at he ⊢
     simp only [Option.some.injEq] at he ⊢
-    rw [← he]; exact (removeS_get h s _ hw).symm
+    rw [← he]; exact (removeFix_get fx h s _ hw).symm
   rw [if_neg h4] at he ⊢
   by_cases h5 : kind = "shutup"
   · rw [if_pos h5] at he ⊢
     simp only [Option.some.injEq] at he ⊢
-    rw [← he]; exact (removeS_get h s _ hw).symm
+    rw [← he]; exact (removeFix_get fx h s _ hw).symm
   rw [if_neg h5] at he ⊢
   by_cases h6 : kind = "unshutup"
   · rw [if_pos h6] at he ⊢
@@ -62,8 +74,8 @@ theorem permEdit_get (h : Heap) (s : Slice) (rec : Bool) (kind : String) (r : He
   rw [if_neg h6] at he
   cases he
 
-theorem permEdit_isSome (h : Heap) (s : Slice) (rec : Bool) (kind : String) :
-    (permEdit h s rec kind).isSome = (permEditL (h.get s) rec kind).isSome := by
+theorem permEdit_isSome (fx : Fixes) (h : Heap) (s : Slice) (rec : Bool) (kind : String) :
+    (permEdit fx h s rec kind).isSome = (permEditL fx.removeAll (h.get s) rec kind).isSome := by
   unfold permEdit permEditL
   split_ifs <;> rfl
 
@@ -91,7 +103,7 @@ theorem pk_withHeap (w : World) (h : Heap) : World.pk { w with heap := h } = w.p
 theorem stepAction_changePerm_pk (w : World) (i : Nat) (c : Client) (kind : String) (rest : List Action) (g : String)
     (hc : w.clients[i]? = some c) (hq : c.queue = .changePerm kind :: rest) (hg : c.group = some g)
     (r : Heap × Slice)
-    (he : permEdit w.heap c.perms ((w.group? g).any (fun g => g.cfg.allowRecording)) kind = some r) :
+    (he : permEdit w.fix w.heap c.perms ((w.group? g).any (fun g => g.cfg.allowRecording)) kind = some r) :
     (stepAction w i).1.pk = w.pk.setPerms i r.1 r.2 := by
   have hc1 : (w.modClient i (fun c => { c with queue := rest })).client? i = some { c with queue := rest } := by
     show (w.modClient i _).clients[i]? = _
@@ -110,7 +122,7 @@ theorem stepAction_changePerm_pk (w : World) (i : Nat) (c : Client) (kind : Stri
       have : c.group.isNone = true := h.2
       rw [hg] at this; cases this
     rw [if_neg hn, hgrp]
-    show (match permEdit w.heap c.perms _ kind with | none => _ | some (h, s) => _) = _
+    show (match permEdit w.fix w.heap c.perms _ kind with | none => _ | some (h, s) => _) = _
     rw [he]
   rw [stepAction_cons w i c _ rest hc hq, hha]
   have hpk : (((({ (w.modClient i (fun c => { c with queue := rest })) with heap := r.1 } : World).modClient i
